@@ -623,10 +623,12 @@ theorem gapPolls_none (s : Station) (apps : Apps) (ins : List (Int × Bool × By
   | cons x rest => obtain ⟨now, phyTx, rx⟩ := x; simp [gapPolls, h]
 
 /-- **`one_gap_poll_per_visit`**: over ANY sequence of polls of one token visit — arbitrary times,
-received bytes, PHY states, application scripts, station state — the station transmits at most ONE
-FDL status request outside its application phase (i.e. for its own GAP maintenance), and after that
-request no further one before the token has left (or a new visit has begun).  (The post-claim sweep
-is not a visit in this sense: `ClaimToken` has no phase; its behaviour is `claim_scan_step`.) -/
+received bytes, PHY states, application scripts, station state, from the token receipt (`UseToken`)
+to the token pass — the station transmits at most ONE FDL status request of its own (one that is
+not an application's message cycle, see `gapPolls` and `visit_poll_outcomes`), and after that request
+no further one before the token has left (or a new visit has begun).  (The post-claim sweep is not a
+visit in this sense: `ClaimToken` has no phase; its behaviour is `claim_scan_step` /
+`claim_sweeps_whole_gap`.) -/
 theorem one_gap_poll_per_visit : ∀ (ins : List (Int × Bool × Bytes)) (s : Station) (apps : Apps) (n : Nat),
     gapPolls s apps ins = some n →
     n + (if phase s.st = some 2 ∨ phase s.st = some 3 then 1 else 0) ≤ 1 := by
